@@ -97,7 +97,14 @@ TCrash ==
     /\ obs' = [obs EXCEPT !.phase = "judged", !.crashed = TRUE]
     /\ UNCHANGED vars
 
-TNext == TReset \/ TSkip \/ TRet \/ TFs \/ TLeft \/ TCrash
+(* a planned stop / pause / fault that never happened (the transfer was over before the planned moment came): *)
+(* the run is an undisturbed one                                                                            *)
+TUnfired ==
+    /\ IsEvent("unfired") /\ obs.phase = "running"
+    /\ obs' = [obs EXCEPT !.stop = "none", !.stopdel = FALSE, !.pause = FALSE, !.silence = FALSE]
+    /\ UNCHANGED vars
+
+TNext == TReset \/ TSkip \/ TRet \/ TFs \/ TLeft \/ TCrash \/ TUnfired
 TSpec == TInit /\ [][TNext /\ UNCHANGED PauseVars]_tvars
 
 -----------------------------------------------------------------------------
@@ -122,6 +129,10 @@ Stopped == obs.stop # "none"
 ObsStopPrompt == (Judged /\ Stopped) => (obs.hung = {} /\ \A r \in Roles : obs.since[r] <= StopBoundMs)
 ObsDeleteExact == (Judged /\ Stopped /\ obs.stopdel /\ result[ObsRcv] # "ok" /\ result["C"] # "ok")
                       => (obs.npresent = 0 /\ obs.touched = 0)
+(* Transfer!StopDelAgreed on the observed outcome: an uploading client that ends with its stop-and-delete (it has *)
+(* not sent the exit message) never faces a server that reports the files as saved, and nothing is left.     *)
+ObsStopDelAgreed == (Judged /\ obs.stop = "C" /\ obs.stopdel /\ cf.upload /\ result["C"] # "ok")
+                      => (result["V"] # "ok" /\ obs.npresent = 0 /\ obs.touched = 0)
 ObsKeepIntact == (Judged /\ Stopped /\ ~obs.stopdel) => (obs.keptok /\ obs.touched = 0)
 
 (* C11.  A role notices silence after one read time-out (the client's default 20 s while it has *)
